@@ -147,6 +147,17 @@ def directed_schedules(prop):
                         rl = ["R", "L"] if nocopy else ["R"]
                         steps = ["W"] * min(cap + 1, len(lens)) + rl + ["W", "W"] + rl + ["W", "W", "W"] + rl + ["A"] * (T + 2) + rl + ["C"] + rl * 4
                         out.append(mk("unite", J, T, inacc, cap, nocopy, steps=steps, src="directed:shared-table", plan=(lens, addr), max_items=len(lens)))
+    if prop in ("C10",):
+        # a producer whose writes land exactly at tick instants (buffered input, JoinSize never reached): whichever of the two
+        # ready cases the discipline takes first, the accumulated elements are due Timeout*(1+1/Div) after they were accepted
+        for kind in ("join", "v1", "unite"):
+            for T, inacc in ((4, 25), (4, 50), (2, 50)):
+                for cap in (1, 3):
+                    for nocopy in (False, True):
+                        for rep in range(6):
+                            w = "P1" if kind == "unite" else "P"
+                            steps = ["W1" if kind == "unite" else "W"] + [w, "A"] * (3 * T + 4) + ["A"] * (2 * T) + ["C", "A", "R", "R"]
+                            out.append(mk(kind, 40, T, inacc, cap, nocopy, ready=True, steps=steps, max_items=60, src="directed:writes-at-tick-instants"))
     if prop in ("C11", "C03", "C09"):
         # reused batch buffers: empty and short slices with spare capacity >= JoinSize
         for J in (2, 3, 4):
@@ -492,6 +503,7 @@ def run_engine(v, tier, prop, design_jobs, make_schedules, level_note=""):
             v.violation("%s: %s (trace %d, %s)" % (prop, b["msg"], tr, json.dumps(compact(t)["cfg"])),
                         dict(kind="join-lockstep", property=prop, finding=b, seed=seed(), schedule=scheds[tr - 1], trace=t))
         refused = {tr for tr, t in traces.items() if any(r["ev"] == "Rejected" for r in t)}   # options the constructor refused: nothing ran
+        refused |= {tr for tr, t in traces.items() if any(r.get("later") for r in t)}          # writes landing at a tick instant: monitor only
         drift = [tr for tr in traces if not strict.get(tr, (False, 0))[0] and tr not in refused]
         ok = [tr for tr in traces if tr not in bad_traces and tr not in drift and tr not in refused]
         extra["options_refused_by_constructor"] = len(refused)
